@@ -232,6 +232,12 @@ class X:
     def __rmul__(a, b): return a._bin(b, lambda x, y: x * y, True)
     def __truediv__(a, b): return a._bin(b, _truediv)
     def __rtruediv__(a, b): return a._bin(b, _truediv, True)
+    def __and__(a, b): return a._bin(b, lambda x, y: STATE.alg.bitop("and", x, y))
+    def __rand__(a, b): return a._bin(b, lambda x, y: STATE.alg.bitop("and", x, y), True)
+    def __or__(a, b): return a._bin(b, lambda x, y: STATE.alg.bitop("or", x, y))
+    def __ror__(a, b): return a._bin(b, lambda x, y: STATE.alg.bitop("or", x, y), True)
+    def __lshift__(a, b): return a._bin(b, lambda x, y: STATE.alg.bitop("shl", x, y))
+    def __rshift__(a, b): return a._bin(b, lambda x, y: STATE.alg.bitop("shr", x, y))
     def __neg__(a): return X(-a.v)
     def __pos__(a): return a
     def __abs__(a): return X(STATE.alg.abs(a.v))
@@ -338,6 +344,32 @@ class xfloat(float, metaclass=_XFloatMeta):
         return float(v)
 
 
+class XArray(_np.ndarray):
+    """object ndarray whose cells are exact scalars: astype(float/complex) is the identity (A1)."""
+
+    def astype(self, dtype, *a, **k):
+        if _inexact(dtype):
+            return self.copy()
+        return _np.ndarray.astype(self.view(_np.ndarray), _real_dtype(dtype), *a, **k)
+
+    @property
+    def real(self):
+        return X._arr(self, lambda c: X(val(c)).real).view(XArray)
+
+    @property
+    def imag(self):
+        return X._arr(self, lambda c: X(val(c)).imag).view(XArray)
+
+    def any(self, *a, **k):
+        for c in self.flat:
+            if isinstance(c, X):
+                if c._cmp(0, "ne"):
+                    return True
+            elif c != 0:
+                return True
+        return False
+
+
 def _is_obj(a):
     return isinstance(a, _np.ndarray) and a.dtype == object
 
@@ -364,6 +396,8 @@ class _DType:
         self.__name__ = real.__name__
 
     def __call__(self, x=0, *a, **k):
+        if isinstance(x, X) and hasattr(STATE.alg, "cast"):
+            return X(STATE.alg.cast(x.v, self.__name__))
         if isinstance(x, X) or _is_obj(x):
             return x
         sym = getattr(x, "_pyvc_symbolic", False)
@@ -436,7 +470,7 @@ def _sym_shape(shape):
 def _obj_full(shape, fill):
     a = _np.empty(shape, dtype=object)
     a.fill(fill)
-    return a
+    return a.view(XArray)
 
 
 def _to_obj(x):
@@ -477,6 +511,8 @@ class _NPX(_types.ModuleType):
 
     # ---- creation ---------------------------------------------------------
     def zeros(self, shape, dtype=None, **k):
+        if isinstance(shape, tuple) and shape and type(shape[0]).__name__ == "NT" and hasattr(STATE.alg, "thread_scratch"):
+            return STATE.alg.thread_scratch(int(shape[0]), shape[1])
         if _sym_shape(shape):
             return STATE.alg.symbolic_array(shape)
         if STATE.exact and _inexact(dtype):
@@ -506,6 +542,8 @@ class _NPX(_types.ModuleType):
         return _np.zeros_like(a, dtype=_real_dtype(dtype), **k)
 
     def empty_like(self, a, dtype=None, **k):
+        if getattr(a, "_pyvc_symbolic", False) and hasattr(a, "n"):
+            return STATE.alg.symbolic_array((X(a.n), 0) if a.elem == "vec" else X(a.n))
         return self.zeros_like(a, dtype=dtype, **k)
 
     def ones_like(self, a, dtype=None, **k):
@@ -528,14 +566,14 @@ class _NPX(_types.ModuleType):
                 or (STATE.exact and dtype is None and _has_float(x)):
             k.pop("copy", None)
             a = _np.array(x, dtype=object)
-            return a
+            return a.view(XArray)
         return _np.array(x, dtype=_real_dtype(dtype), **k)
 
     def asarray(self, x, dtype=None, **k):
         if _is_obj(x) or getattr(x, "_pyvc_symbolic", False):
             return x
         if _symbolic(x) or (STATE.exact and dtype is not None and _inexact(dtype)):
-            return _np.array(x, dtype=object)
+            return _np.array(x, dtype=object).view(XArray)
         return _np.asarray(x, dtype=_real_dtype(dtype), **k)
 
     def ascontiguousarray(self, x, dtype=None, **k):
@@ -695,6 +733,8 @@ class _NPX(_types.ModuleType):
     def any(self, a, *aa, **k):
         if isinstance(a, (bool, _np.bool_)):
             return bool(a)
+        if _is_obj(a):
+            return a.view(XArray).any()
         return _np.any(a, *aa, **k)
 
     def all(self, a, *aa, **k):
@@ -848,7 +888,7 @@ def xarr(vals):
     out = _np.empty(a.shape, dtype=object)
     for idx in _np.ndindex(a.shape):
         out[idx] = X(val(a[idx]))
-    return out
+    return out.view(XArray)
 
 
 def vals(a):
